@@ -126,6 +126,13 @@ def _leg_lists(ns, res, spec, rng, node, js_batch):
                 res.nontrivial('list', repr(names), col, style)
                 case = {'leg': 'list', 'names': names, 'col': col, 'query_text': qtext}
                 check_rows(res, 'query_table(%r, header %r)' % (qtext, names), case, r['rows'], r['error'] and '%s: %s' % (r['error'], r['error_msg']), expected(col), 'list-%s' % style)
+            # Python only: the name variable used nowhere but inside the replacement field of an f-string (the variable map scans literals too)
+            if qast.attr_safe(names[col]) and col % 2 == n % 2:
+                qtext = 'select f"{a.%s}", NR' % names[col]
+                r = boundary.run_query_table(ns, qtext, [list(x) for x in A], None, list(names))
+                res.evaluations += 1
+                res.count('list_lookups:fstring')
+                check_rows(res, 'query_table(%r, header %r)' % (qtext, names), {'leg': 'list', 'names': names, 'col': col, 'query_text': qtext}, r['rows'], r['error'] and '%s: %s' % (r['error'], r['error_msg']), expected(col), 'list-fstring')
         # names as UPDATE targets, EXCEPT columns and JOIN keys (these are resolved through the textual variable map)
         col = rng.randrange(len(names))
         for style, var in variants(names, col):
